@@ -12,6 +12,8 @@ Template directives (lines starting with `//%%`):
   //%% @entry                           following raw lines = proof block inserted as first statement
   //%% @loop <k> /<regex>/              following raw lines = invariants for the k-th loop (1-based,
   //%%                                  textual order); regex must match that loop's header text
+  //%% @loopbody <k>                    following raw lines = proof block inserted as first statement of
+  //%%                                  the k-th loop's body (ghost code only)
   //%% @nobody                          keep only the signature and end it with ';' (trait decls)
   //%% end
 
@@ -261,6 +263,7 @@ class Block:
         self.spec = []         # (template line no, text)
         self.entry = []
         self.loops = {}        # k -> (regex, [(tline, text)])
+        self.loopbody = {}     # k -> [(tline, text)]  proof block put first in the k-th loop body
 
 
 class Generated:
@@ -351,6 +354,10 @@ def parse_template(path, assumed=False, root=None, includes=None):
                 section = cur.spec
             elif d == '@entry':
                 section = cur.entry
+            elif d.startswith('@loopbody '):
+                k = int(d.split()[1])
+                cur.loopbody[k] = []
+                section = cur.loopbody[k]
             elif d.startswith('@loop '):
                 m = LOOP_RE.match(d)
                 if not m:
@@ -523,11 +530,10 @@ def generate(template_path, repo_root, unit_name, canary=False):
             has_requires = 'requires' in secs
             n_clauses += sum(count_clauses(v) for kk, v in secs.items() if kk in ('ensures', 'decreases'))
             spec_lines = list(b.spec)
-            if canary and has_requires and not getattr(b, 'assumed', False) and bo is not None and not b.nobody:
-                spec_lines = add_canary(spec_lines)
-                g.canaried.append(b.name)
+            idx_spec_start = len(g.lines)
             for j, (tl, t) in enumerate(spec_lines):
-                g.emit(t, {'k': 'spec', 'fn': b.name, 'qual': qual, 'tline': tl, 'clause': j, 'canary': tl == 'canary'})
+                g.emit(t, {'k': 'spec', 'fn': b.name, 'qual': qual, 'tline': tl, 'clause': j})
+            idx_spec_end = len(g.lines)
             if b.nobody or bo is None:
                 g.emit(';', dict(origin_base, part='sig'))
             elif getattr(b, 'assumed', False):
@@ -548,6 +554,10 @@ def generate(template_path, repo_root, unit_name, canary=False):
                     inserts.append((lb, lines, 'loop%d' % kidx))
                     n_clauses += 2 * sum(count_clauses(v) for kk, v in split_sections(lines).items() if kk.startswith('invariant')) \
                         + sum(count_clauses(v) for kk, v in split_sections(lines).items() if kk == 'decreases')
+                for kidx, lines in b.loopbody.items():
+                    if kidx < 1 or kidx > len(loops):
+                        raise AnchorLost('%s::%s loop %d not found (%d loops)' % (b.file, b.name, kidx, len(loops)))
+                    inserts.append((loops[kidx - 1][1] + 1, lines, 'loopbody%d' % kidx))
                 if b.entry:
                     inserts.append((1, b.entry, 'entry'))
                 inserts.sort(key=lambda x: x[0])
@@ -562,6 +572,24 @@ def generate(template_path, repo_root, unit_name, canary=False):
                         g.emit(t, {'k': tag if tag == 'entry' else 'inv', 'fn': b.name, 'qual': qual, 'tline': tl, 'clause': j, 'loop': tag})
                     pos = off
                 _emit_src(g, body[pos:], origin_base, src_line)
+            if canary and has_requires and not getattr(b, 'assumed', False) and bo is not None and not b.nobody:
+                # a renamed copy of the function whose contract additionally claims `false`: it must FAIL.
+                # (a copy, so that callers of the original never see the bogus postcondition)
+                blk_lines = g.lines[out_start - 1:]
+                blk_orig = g.origin[out_start - 1:]
+                a, z = idx_spec_start - (out_start - 1), idx_spec_end - (out_start - 1)
+                cname = b.name + '__canary'
+                g.emit('', {'k': 'template', 'tline': b.tline})
+                for ln, o in zip(blk_lines[:a], blk_orig[:a]):
+                    ln2 = re.sub(r'\bfn\s+' + re.escape(b.name) + r'\b', 'fn ' + cname, ln, count=1)
+                    g.lines.append(ln2)
+                    g.origin.append(dict(o, fn=cname, canary=True))
+                for j, (tl, t) in enumerate(add_canary(spec_lines)):
+                    g.emit(t, {'k': 'spec', 'fn': cname, 'qual': qual, 'tline': tl, 'clause': j, 'canary': True})
+                for ln, o in zip(blk_lines[z:], blk_orig[z:]):
+                    g.lines.append(ln)
+                    g.origin.append(dict(o, fn=cname, canary=True))
+                g.canaried.append(b.name)
         else:
             if b.pub:
                 item = make_pub(item, b.kind)
